@@ -171,6 +171,7 @@ from halmos.exceptions import (
     OutOfGasError,
     PathEndingException,
     Revert,
+    StackOverflowError,
     StackUnderflowError,
     WriteInStaticContext,
 )
@@ -230,6 +231,7 @@ EMPTY_BYTES = ByteVec()
 EMPTY_KECCAK = 0xC5D2460186F7233C927E7DB2DCC703C0E500B653CA82273B7BFAD8045D85A470
 Z3_ZERO, Z3_ONE = con(0), con(1)
 MAX_CALL_DEPTH = 1024
+MAX_STACK_SIZE = 1024
 
 # Precompile addresses
 ECRECOVER_PRECOMPILE = BV(1, size=160)
@@ -600,10 +602,14 @@ class State:
     def push(self, v: Bool | BV) -> None:
         type_v = type(v)
         assert type_v is BV and v.size == 256 or type_v is Bool
+        if len(self.stack) >= MAX_STACK_SIZE:
+            raise StackOverflowError()
         self.stack.append(v)
 
     def push_any(self, v: Any) -> None:
         # wraps any value in a 256-bit BitVec
+        if len(self.stack) >= MAX_STACK_SIZE:
+            raise StackOverflowError()
         self.stack.append(BV(v, size=256))
 
     def set_top(self, v: Bool | BV) -> None:
@@ -652,9 +658,12 @@ class State:
 
     def dup(self, n: int) -> None:
         try:
-            self.stack.append(self.stack[-n])
+            item = self.stack[-n]
         except IndexError as e:
             raise StackUnderflowError() from e
+        if len(self.stack) >= MAX_STACK_SIZE:
+            raise StackOverflowError()
+        self.stack.append(item)
 
     def swap(self, n: int) -> None:
         try:
